@@ -129,7 +129,7 @@ def runS {Q : Type} (P : SProto Q) (mr : Nat) (evs : List SEv) : String :=
   let c : LossSys.CCfg := { maxRetry := mr, lim := Client.Limits.std }
   let (s, obs) := LossSys.run P cls c (evs.length + 1) (Sys.init P) evs []
   let wire := if s.wire.isEmpty then "-" else ",".intercalate (s.wire.map fun w => s!"{w.1}@{w.2.1}:{hexOrDash w.2.2}")
-  joinSp (obs.map showObs ++ ["wire", wire, "refused", toString s.refusals, "conns", toString s.nconn])
+  joinSp (obs.map showObs ++ ["wire", wire, "refused", toString s.refusals, "conns", toString s.nconn, "ties", toString s.ties])
 
 open Gallia.LossSys in
 def stepS (tr : String) (mr : String) (toks : List String) : String :=
